@@ -53,8 +53,8 @@ def make_doc(d):
 
 
 def write(doc):
-    fd, path = tempfile.mkstemp(suffix='.xml', prefix='c13_', dir='/dev/shm' if os.path.isdir('/dev/shm') else None)
-    os.close(fd)
+    # one path per worker process, rewritten for every document (a reader must go by the content, not by the path)
+    path = os.path.join('/dev/shm' if os.path.isdir('/dev/shm') else tempfile.gettempdir(), 'c13_%d.xml' % os.getpid())
     text = L.writeSBMLToString(doc)
     return path, text
 
@@ -139,6 +139,13 @@ def documents(tier):
                dict(id='r2', reactants=[('Y', 1)], products=[('X', 1)], law='q*Y')]
         for rules in ([('assignment', 'q', '2*k2 + X/10')], [('rate', 'g', '0.3*Y'), ('assignment', 'q', '2*k2 + X/10')]):
             out.append(dict(tag='locals-vs-ruled-global', species=sp4, params=par4, rules=rules, reactions=[rxs[i] for i in order]))
+    # assignment rules whose right-hand side is a bare number (a parameter and a species target); they hold at every time
+    for rules in ([('assignment', 'q', '7')], [('assignment', 'W', '2.5'), ('assignment', 'q', '0.75')], [('rate', 'Z', '0.4'), ('assignment', 'q', '7')]):
+        out.append(dict(tag='rules:constant', species=sp4, params=par4, rules=rules, reactions=rx4))
+    # one species referenced twice in the same list of a reaction (the stoichiometries add up): X + X -> Y, Y + 2 Y -> 3 X written as lists
+    out.append(dict(tag='repeated-reference', species=sp4, params=par4, rules=[],
+                    reactions=[dict(id='r1', reactants=[('X', 1), ('X', 1)], products=[('Y', 1)], law='k1*X*X'),
+                               dict(id='r2', reactants=[('Y', 1), ('Y', 2)], products=[('X', 1), ('Z', 1), ('X', 2)], law='k2*Y')]))
     # two rules of the same kind in a row (state carried between iterations must not matter)
     extra = [('assignment', 'W', '0.1*X + Y'), ('rate', 'Z', 'k1 + 0.2*X'), ('rate', 'Y', '0.05*X'), ('assignment', 'q', '2*k2 + X/10')]
     for seq in itertools.permutations(extra, 3 if tier == 'quick' else 4):
@@ -244,9 +251,12 @@ def check(c, d):
             for s, i in s2i.items():
                 st[i] = x.get(s, 0.0)
             m.get_parameter_values()[:] = pvals0
-            iface.py_apply_repeated_rules(st, 0.0, True)
+            # (no document of this family depends on the time: the second half of the states is evaluated at a later time, where an
+            # SBML assignment rule holds just as it does at time 0)
+            t_eval = 0.0 if STATES.index(x) % 2 == 0 else 1.25
+            iface.py_apply_repeated_rules(st, t_eval, True)
             dx = np.zeros(len(s2i))
-            iface.py_calculate_deterministic_derivative(st, dx, 0.0)
+            iface.py_calculate_deterministic_derivative(st, dx, t_eval)
             c.count('evaluations'); c.count('transitions')
             # rule-assigned values
             for kind, var, formula in d.get('rules', []):
